@@ -8,6 +8,12 @@ from gen import htmlgen
 logging.getLogger('web_monitoring_diff.html_render_diff').setLevel(logging.CRITICAL + 1)
 
 HAND_PAIRS = [
+    ('<ul><li>one</li><script>track("old")</script><li>two</li></ul>', '<ul><li>one</li><li>two</li></ul>'),      # active elements directly in a list
+    ('<ul><li>one</li><script>track("old")</script><li>two</li></ul>', '<ul><li>one</li><script>track("new")</script><li>two</li></ul>'),
+    ('<ol><style>li { color: red }</style><li>a</li></ol><dl><script>var d</script><dt>t</dt><dd>d</dd></dl>', '<ol><li>a</li></ol><dl><dt>t</dt><dd>d</dd></dl>'),
+    ('<p>hello</p><svg><script>alert(4)</script><circle r="1"/></svg>', '<p>hello</p>'),        # deleted script inside embedded SVG
+    ('<p>hello there</p><p>x <svg><style>circle { fill: red }</style><script>var a</script><circle r="1"/></svg> y</p><script>var q</script>', '<p>hello</p>'),
+    ('<div>k <math><mi>x</mi><style>mi { color: red }</style></math></div>', '<div>k</div>'),
     ('<p>one<br>two</p>', '<p>one<br>two three</p>'),
     ('<body>a &lt;b&gt;hi&lt;/b&gt; &lt;script&gt;alert(1)&lt;/script&gt;</body>', '<body>a &lt;b&gt;hi&lt;/b&gt; &lt;script&gt;alert(1)&lt;/script&gt; new</body>'),
     ('<p>Intro <b>bold claim here</b></p>', '<p>Intro <b>bold</b></p><div>new notice text</div>'),
@@ -320,8 +326,25 @@ def c09_failures(a, b, result):
             if (e.name, attrs, e.decode_contents()) not in allowed:
                 fails.append('%s view has a <%s> that is in neither input verbatim: %r' % (key, e.name, str(e)[:120]))
             if key == 'combined' and e.find_parent(lambda t: rl.is_marker(t, 'del')) and \
-                    not e.find_parent('template', class_='wm-diff-deleted-inert'):
-                fails.append('combined view: a deleted <%s> is not wrapped in the inert template: %r' % (e.name, str(e)[:100]))
+                    not any(not t.find_parent(['svg', 'math']) for t in e.find_parents('template', class_='wm-diff-deleted-inert')):
+                # a <template> inside embedded SVG/MathML is an SVG/MathML element of that name, not an (inert) HTML template
+                fails.append('combined view: a deleted <%s> is not wrapped in an inert HTML template: %r' % (e.name, str(e)[:100]))
+        if key == 'combined':
+            # deleted means: of the old page only.  Whatever is live (outside an inert HTML template) must be one of the NEW page's
+            # scripts/styles, each at most as often as the new page has it - whether or not a <del> is still around it
+            from collections import Counter
+            live = Counter()
+            for e in v.find_all(['script', 'style']):
+                if e.get('id') in ('wm-diff-script', 'wm-diff-style') or e.find_parent('template', id='wm-diff-old-head'):
+                    continue
+                if any(not t.find_parent(['svg', 'math']) for t in e.find_parents('template', class_='wm-diff-deleted-inert')):
+                    continue
+                attrs = tuple(sorted((k, ' '.join(x) if isinstance(x, list) else x) for k, x in e.attrs.items()))
+                live[(e.name, attrs, e.decode_contents())] += 1
+            have = Counter(src_b)
+            for sig, n_live in live.items():
+                if sig in src_a and n_live > have[sig]:
+                    fails.append('combined view: <%s> of the old page only (deleted) is live, not in an inert template: %r' % (sig[0], sig[2][:80]))
         # the title diff must not parse to active elements
         meta = v.find('meta', attrs={'name': 'wm-diff-title'})
         if meta is not None:
